@@ -101,6 +101,22 @@ RuleMatches(t, comps, isdir) ==
           /\ IF Rooted(t) THEN Glob(Body(t), Join(comps), TRUE)
                           ELSE Glob(Body(t), comps[n], FALSE)
 
+\* the manual's own examples (sections 7.7 and 8), as a sanity check of the definitions above
+ASSUME ManualExamples ==
+  /\ RuleMatches("*.unrecoverable", <<"x", "f.unrecoverable">>, FALSE)
+  /\ ~RuleMatches("*.unrecoverable", <<"f.unrecoverable", "x">>, FALSE)
+  /\ RuleMatches("/lost+found/", <<"lost+found", "f">>, FALSE)
+  /\ ~RuleMatches("/lost+found/", <<"x", "lost+found", "f">>, FALSE)
+  /\ RuleMatches("tmp/", <<"x", "tmp", "y", "f">>, FALSE)
+  /\ ~RuleMatches("tmp/", <<"x", "tmp">>, FALSE)          \* a file named tmp
+  /\ RuleMatches("tmp/", <<"x", "tmp">>, TRUE)            \* a directory named tmp
+  /\ RuleMatches("*.mp3", <<"m", "n", "s.mp3">>, FALSE)
+  /\ RuleMatches("/movies/", <<"movies", "a", "b.avi">>, FALSE)
+  /\ RuleMatches("Thumbs.db", <<"p", "Thumbs.db">>, FALSE)
+  /\ RuleMatches("\\$RECYCLE.BIN", <<"$RECYCLE.BIN">>, FALSE)
+  /\ Glob("[a-z]", "q", FALSE) /\ ~Glob("[a-z]", "*", FALSE) /\ Glob("[!a-z]", "*", FALSE)
+  /\ ~Glob("a*", "a/b", TRUE) /\ Glob("a*", "a/b", FALSE) /\ ~Glob("a?b", "a/b", TRUE)
+
 -----------------------------------------------------------------------------
 (* 3. The finite universe explored by TLC.                                 *)
 
